@@ -255,7 +255,23 @@ pub fn apply(c: &MutCase) -> Vec<u8> {
                     10 => wr16(&mut bytes, body + 4, [256u16, 65_535, 255, 0, 1, 5, 257, 32_768][v % 8]), // CFM segment count
                     11 => wr16(&mut bytes, body + 6, [65_535u16, 21, 0, 32_768, 1, 2, 600, 1201][v % 8]), // CFM first zone count
                     12 => wr32(&mut bytes, body + 32, U32_EXTREMES[v % 8]),
-                    _ => wr16(&mut bytes, body + 30, U16_EXTREMES[v % 8]),
+                    _ => {
+                        // control-flags byte (offset 18) of the block the k-th pointer designates, together with an
+                        // unknown name: error paths that format the block must not trip over out-of-domain codes
+                        let cnt = rd16(&bytes, body + 30).unwrap_or(0) as usize;
+                        if cnt > 0 {
+                            let k = v % cnt.min(10);
+                            if let Some(p) = rd32(&bytes, body + 32 + 4 * k) {
+                                let blk = body + p as usize;
+                                if blk + 19 < bytes.len() {
+                                    bytes[blk + 18] = [4u8, 255, 128, 9][(v / 2) % 4];
+                                    if v % 2 == 0 {
+                                        bytes[blk + 1..blk + 4].copy_from_slice(&NAMES[(v / 4) % 8]);
+                                    }
+                                }
+                            }
+                        }
+                    }
                 }
             }
         }
